@@ -117,6 +117,10 @@ class Gen:
                     acts.insert(0, upd)
                 else:
                     acts.append(upd)
+            elif self.rng.random() < 0.3:                         # a second child of the same parent (siblings)
+                h2 = f'g_{self.fresh()}'
+                acts.append(['add', h2, p, t, self.fresh(), None])
+                self._add(h2, p, t)
             elif self.rng.random() < 0.25 and t in CHILD_TYPE:   # add a grandchild in the same transaction
                 h2 = f'g_{self.fresh()}'
                 acts.append(['add', h2, h, CHILD_TYPE[t], self.fresh(), None])
@@ -142,7 +146,13 @@ class Gen:
         elif generated:
             h = self.rng.choice(generated)
             acts.append(['del', h])
+            sib = [g for g in generated if g != h and self.tree.get(g) == self.tree.get(h) and g in self.tree]
             self._del(h)
+            if sib and self.rng.random() < 0.4:                  # remove a sibling in the same transaction
+                h2 = self.rng.choice(sib)
+                if h2 in self.tree:
+                    acts.append(['del', h2])
+                    self._del(h2)
         else:
             return None
         return {'k': 'descr', 'iface': iface, 'actions': acts}
